@@ -103,7 +103,9 @@ def _menus(fname, pname, param, H, tmp):
     d = param.default
     B = lambda: [d, (not d)] if isinstance(d, bool) else [False, True]  # noqa: E731
     if pname == "in_place":
-        return [False]
+        import numpy as _np
+
+        return [False, _np.False_, 0]  # "not in place" spelt with a numpy bool (the result of a comparison) and with 0
     if pname in ("sparse", "index", "weighted", "normalized", "normalize", "rescale_per_node", "exact", "ignore_singletons",
                  "include_self", "equidistant", "return_phantom_graph", "keep_isolates", "exclude_min_size", "hull",
                  "node_labels", "hyperedge_labels", "rescale_sizes"):
